@@ -187,6 +187,39 @@ func (v *View) currentRevisionNames() map[string]bool {
 	return out
 }
 
+// podBuiltFrom: is pod (as the controller sent it to the API) template t plus the per-pod identity and nothing else?
+// Returns a description of the first difference, "" if none. Hostname, subdomain and volumes are the identity's (C06).
+func podBuiltFrom(pod *corev1.Pod, t *corev1.PodTemplateSpec) string {
+	ps, ts := pod.Spec.DeepCopy(), t.Spec.DeepCopy()
+	ps.Hostname, ps.Subdomain, ps.Volumes = "", "", nil
+	ts.Hostname, ts.Subdomain, ts.Volumes = "", "", nil
+	if !c19Equal.DeepEqual(ps, ts) {
+		return "spec differs at " + explain(*ts, *ps)
+	}
+	own := map[string]bool{"statefulset.kubernetes.io/pod-name": true, "controller-revision-hash": true}
+	for k, val := range t.Labels {
+		if !own[k] && pod.Labels[k] != val {
+			return fmt.Sprintf("label %s=%q, the revision has %q", k, pod.Labels[k], val)
+		}
+	}
+	for k, val := range pod.Labels {
+		if _, ok := t.Labels[k]; !ok && !own[k] {
+			return fmt.Sprintf("label %s=%q is not in the revision", k, val)
+		}
+	}
+	for k, val := range t.Annotations {
+		if got, ok := pod.Annotations[k]; !ok || got != val {
+			return fmt.Sprintf("annotation %s=%q, the revision has %q", k, got, val)
+		}
+	}
+	for k, val := range pod.Annotations {
+		if _, ok := t.Annotations[k]; !ok {
+			return fmt.Sprintf("annotation %s=%q is not in the revision", k, val)
+		}
+	}
+	return ""
+}
+
 func monC07(rep Rep, v *View) (interesting bool) {
 	acts := v.PodActs()
 	updates := 0
@@ -209,6 +242,11 @@ func monC07(rep Rep, v *View) (interesting bool) {
 			img := pod.Spec.Containers[0].Image
 			if ri, ok := v.RevImage[lbl]; !ok || ri != img {
 				rep.Violate("rolling/created-pod-label-template-mismatch", "created %s labelled %q (image %q) but built with image %q%s", pa.A.Name, lbl, ri, img, ctx(v))
+			}
+			if t := v.RevTemplate[lbl]; t != nil {
+				if d := podBuiltFrom(pod, t); d != "" {
+					rep.Violate("rolling/created-pod-not-built-from-its-revision", "created %s labelled %q, but it is not that revision's template: %s%s", pa.A.Name, lbl, d, ctx(v))
+				}
 			}
 			if v.RollingUpdate && v.HasBlock {
 				if pa.Ord < v.Partition {
